@@ -648,6 +648,61 @@ pub fn explore<const N: usize>(sc: &Scope, w: &mut impl std::io::Write) -> Stats
     Stats { states: seen.len(), transitions: trans, capped }
 }
 
+/// every index shape `(ri, wi)` at a moderate size, distinct byte values in `mem`, a fixed set of calls with
+/// boundary arguments: covers index-arithmetic that only goes wrong for particular offset/length combinations
+pub fn grid<const N: usize>(w: &mut impl std::io::Write) -> usize {
+    let mut n = 0;
+    let mem: Vec<u8> = (0..N).map(|i| if i % 5 == 3 { b'\n' } else { 0x41 + (i as u8 % 26) }).collect();
+    for wi in 0..=N {
+        for ri in 0..=wi {
+            if ri == wi && ri > 0 {
+                continue;
+            }
+            let mut a = [0u8; N];
+            a.copy_from_slice(&mem);
+            let mut b = FixedBuf::empty(a);
+            b.wrote(wi);
+            if ri > 0 {
+                b.read_bytes(ri);
+            }
+            let s = match observe(&b) {
+                Some(s) => s,
+                None => continue,
+            };
+            let len = wi - ri;
+            let free = N - wi;
+            let mut ops = vec![Op::Shift, Op::Clear, Op::ReadAll, Op::ReadByte, Op::TryReadByte, Op::IoFlush];
+            for f in ALL_DF {
+                ops.push(Op::Deframe(f));
+            }
+            for k in [0usize, 1, 2, len / 2, len.saturating_sub(1), len, len + 1] {
+                ops.push(Op::ReadBytes(k));
+                ops.push(Op::TryReadBytes(k));
+                ops.push(Op::ReadAndCopy(k));
+                ops.push(Op::TryReadExact(k));
+                ops.push(Op::IoRead(k));
+            }
+            for k in [0usize, 1, free / 2, free.saturating_sub(1), free, free + 1] {
+                let d: Vec<u8> = (0..k).map(|i| 0x61 + (i as u8 % 26)).collect();
+                ops.push(Op::WriteBytes(d.clone()));
+                ops.push(Op::IoWrite(d.clone()));
+                ops.push(Op::PokeWrote(d.clone(), k));
+                ops.push(Op::CopyOnce(Resp::Data(d.clone(), false)));
+                ops.push(Op::CopyOnce(Resp::Data(d, true)));
+            }
+            ops.push(Op::TryParse(vec![ROp::ReadByte, ROp::ReadAll], false));
+            ops.push(Op::TryParse(vec![ROp::ReadAll], true));
+            ops.sort_by_key(|o| opstr(o));
+            ops.dedup();
+            for op in &ops {
+                transition(&b, &s, op, w);
+                n += 1;
+            }
+        }
+    }
+    n
+}
+
 /// a random call, mostly within contract
 fn random_op<const N: usize>(rng: &mut Rng, s: &St) -> Op {
     let len = s.wi.wrapping_sub(s.ri).min(N);
